@@ -56,6 +56,8 @@ FLOAT_VAL = z3.Function('csv_float', z3.IntSort(), z3.IntSort(), z3.RealSort())
 INT_VAL = z3.Function('csv_int', z3.IntSort(), z3.IntSort(), z3.IntSort())
 IS_EMPTY = z3.Function('csv_is_empty', z3.IntSort(), z3.IntSort(), z3.BoolSort())
 IS_LON = z3.Function('csv_is_lon_header', z3.IntSort(), z3.BoolSort())
+IS_LON_EXACT = z3.Function('csv_is_lon_header_exact', z3.IntSort(), z3.BoolSort())      # first field == 'lon' (case sensitive)
+INT_OK = z3.Function('csv_int_ok', z3.IntSort(), z3.IntSort(), z3.BoolSort())
 
 
 def csv_field(row, col, lowered=False):
@@ -67,6 +69,9 @@ def csv_field(row, col, lowered=False):
         return FLOAT_VAL(row, col)
 
     def as_int(I):
+        # contracts that cover fields which need not be integers set ghost['csv_int_may_fail'] (then int() branches on INT_OK)
+        if I.ctx.ghost.get('csv_int_may_fail') and I.ctx.branch(z3.Not(INT_OK(row, col))):
+            raise PyRaise(builtin_exc('ValueError'), 'invalid literal for int()')
         return INT_VAL(row, col)
 
     def eq_value(I, other):
@@ -76,6 +81,8 @@ def csv_field(row, col, lowered=False):
             return False
         if isinstance(other, str) and lowered and other == 'lon' and simp(col == 0) is True:
             return IS_LON(row)
+        if isinstance(other, str) and not lowered and other == 'lon' and simp(col == 0) is True:
+            return IS_LON_EXACT(row)
         raise Unsupported('comparison of a csv field with %r' % (other,))
     f = Opaque('csvfield', is_str=True, row=row, col=col, as_float=as_float, as_int=as_int, eq_value=eq_value,
                truth=z3.Not(IS_EMPTY(row, col)))
